@@ -540,7 +540,7 @@ pub fn build_cons(p: &GenParams, vars: &[VarDecl], w: &[i32], rc: &RawCons, inde
             let r = cx.a();
             let n = cx.cap(1 + pick(r, p.max_tasks), 0);
             let starts: Vec<Term> = (0..n).map(|_| cx.term()).collect();
-            let durs: Vec<i32> = (0..n).map(|_| (cx.s().unsigned_abs() as i32) % (p.max_dur + 1)).collect();
+            let mut durs: Vec<i32> = (0..n).map(|_| (cx.s().unsigned_abs() as i32) % (p.max_dur + 1)).collect();
             let uses: Vec<i32> = (0..n).map(|_| (cx.s().unsigned_abs() as i32) % 4).collect();
             let cap = pick(cx.a(), 5) as i32;
             // a task with positive duration whose usage exceeds the capacity is excluded by
@@ -551,6 +551,13 @@ pub fn build_cons(p: &GenParams, vars: &[VarDecl], w: &[i32], rc: &RawCons, inde
                     uses[i] = cap;
                     EXCLUDED_OVERCAP.fetch_add(1, std::sync::atomic::Ordering::Relaxed);
                 }
+            }
+            // one constraint in eight gets a long task which saturates the resource: every other task has to
+            // avoid it, and task sets which cannot are infeasible without any single task exceeding the capacity
+            // (the incremental propagators then tend to report the conflict late)
+            if (r >> 8) % 8 == 0 && n >= 2 && cap > 0 {
+                uses[0] = cap;
+                durs[0] = durs[0].max(3.min(p.max_dur));
             }
             let opts = match p.cum_opts {
                 Some(i) => CumOpts::from_index(i),
